@@ -972,12 +972,15 @@ class Reaction(Object):
         models.update((i, i._model) for i in self._genes)
         for i in models:
             i._model = None
-        # now we can copy
-        new_reaction = deepcopy(self)
-        # restore the references
-        self._model = model
-        for i, i_model in models.items():
-            i._model = i_model
+        try:
+            # now we can copy
+            new_reaction = deepcopy(self)
+        finally:
+            # restore the references, also when copying fails (e.g. a value in
+            # notes that cannot be copied)
+            self._model = model
+            for i, i_model in models.items():
+                i._model = i_model
         return new_reaction
 
     def __add__(self, other: "Reaction") -> "Reaction":
